@@ -106,9 +106,6 @@ class SymPath:
                 out.append((_NORM.cmp(_sub(env, n.ast), lab[0] == "T"), n))
         return out
 
-    def has_fact(self, cands):
-        return any(f in cands for (f, _n) in self.facts())
-
 
 def sym_paths(fn, max_paths=6000):
     cfg = fn.cfg()
